@@ -14,6 +14,7 @@ USES_SYMNP = True
 I.compile_expr = lambda ast, klong: None      # dictionaries never reach the expression compiler; keep paths deterministic
 K = W.interpreter()
 K('mk::{:{[1 10] [2 20]}}')
+K('mk2::{[a b];a::mk();b::mk();a,9,x;b}')     # two evaluations of one literal alive at once; the first is updated, the second returned
 FUNCTIONS = ["klongpy.dyads.eval_dyad_join", "klongpy.dyads.eval_dyad_find", "klongpy.dyads.eval_dyad_drop",
              "klongpy.monads.eval_monad_size", "klongpy.adverbs.eval_adverb_each", "klongpy.parser.kg_read (dictionary literal)",
              "klongpy.parser.list_to_dict", "klongpy.parser.copy_lambda", "klongpy.dyads.eval_dyad_define"]
@@ -24,7 +25,7 @@ ASSUMPTIONS = [
 OUTSIDE = ["real keys equal to integer keys (1 vs 1.0)", "iteration order beyond 'every pair exactly once'", "tables"]
 
 KEYSETS = {
-    "int": [1, 2, 3, -7],
+    "int": [0, 1, 2, -7],             # 0 first: a key that is also Klong's false / "nothing to drop" count
     "str": ["a", "b", "ab", ""],
     "sym": [KGSym("p"), KGSym("q"), KGSym("pq"), KGSym("x")],
     "mixed": [1, "a", KGSym("a"), KGChar("a")],
@@ -123,6 +124,13 @@ def dict_seq(o1: int, o2: int, o3: int, o4: int, o5: int, k1: int, k2: int, k3: 
             if not _pairs_ok(K("{x}'mk()"), {1: 10, 2: 20}):
                 return verdict(False)
             if _ck(K('d2?1')) != _ck(model2[1]) or _ck(K('d2?2')) != ("i", 20):
+                return verdict(False)
+            # two evaluations of the same literal site with no update in between are still two dictionaries
+            K('d3::mk()'); K('d4::mk()'); K['v'] = vs[0]
+            K('d3,9,v')
+            if K('d4?9') is not KLONG_UNDEFINED or _ck(K('#d4')) != ("i", 2) or _ck(K('d3?9')) != _ck(vs[0]):
+                return verdict(False)
+            if not _pairs_ok(K("{x}'mk2(v)"), {1: 10, 2: 20}):
                 return verdict(False)
     except Exception as e:
         if type(e).__name__ == "OutsideModel":
